@@ -12,7 +12,7 @@ import (
 
 var specC11 = report.Spec{Property: "C11", Check: "C11",
 	Rule: "generated histories: the fakes (source, snapping function, each target) stop at a gate before every externally visible step (send feature i, return from snapping, receive, finish after close); the case is a schedule of up to 400 actions {release(source), release(snap), release(target k), tick} after which all gates open; " +
-		"also generated: 1-5 targets, stream length 0-200 (most below 30), outcome table as C10, which targets are slow to finish after their channel closed, GOMAXPROCS in {1,2,4,16}. The same machine runs under the race detector (halt_on_error) for the share of histories stated per tier. " +
+		"also generated: 1-5 targets (1 in 15 cases 6-16), stream length 0-200 (most below 30), outcome table as C10, which targets are slow to finish after their channel closed, GOMAXPROCS in {1,2,4,16}. The same machine runs under the race detector (halt_on_error) for the share of histories stated per tier. " +
 		"Oracle (invariants over the history): after every action what each target has received is a prefix of the sequential reference model's list; at the end ProcessFeatures has returned and at that moment every target had finished (checked by the calling goroutine before anything else; it then writes a field the targets read, as main.go does, so an early return is also a data race); every feature delivered; " +
 		"no pipeline goroutine alive 2 s after return; no race report. Deadlock: no return 10 s after the last gate opened and all pipeline goroutines parked in channel operations/WaitGroup in two dumps 1 s apart => violation, otherwise inconclusive. " +
 		"Non-trivial: >= 2 targets and (a target that is slow to finish, or a schedule that leaves a target starved (fewer releases than deliveries) while others run ahead). Distinct by case content.",
@@ -34,6 +34,7 @@ func genC11(t *rapid.T) PipeCase {
 	c.Procs = rapid.SampledFrom([]int{1, 2, 4, 16}).Draw(t, "procs")
 	c.SlowFin = rapid.SliceOfN(rapid.Bool(), len(c.Targets), len(c.Targets)).Draw(t, "slowfin")
 	c.Breaks = drawBreaks(t, len(c.Feats))
+	c.SlowFeat = drawStraggler(t, c.Feats)
 	return c
 }
 
